@@ -11,12 +11,27 @@ into `profile.agent` (they return the chosen ActionProtein or raise), weights go
     raised: PERMIT(b) => PERMIT(b');
   * callbacks stubs (on_quorum_reached / on_quorum_failed) cross-checked with `reached`;
   * sys.monitoring PY_START reach counters on the anchored functions (keyed by qualname).
+
+Situations beyond "one ballot on a fresh quorum" (all judged by the same reference model, per call):
+
+  * live membership: add_agent / remove_agent between votes on one long-lived quorum (the criterion of the
+    count strategies depends on the colony size at the time of the vote);
+  * colonies assembled through add_agent, including members that share a name (names are not required to be
+    unique): recorded ballots are matched to voters per name group, every member's ballot must be reported;
+  * overlapping run_vote calls on ONE quorum, every voter answering per proposal: re-entrant (a voter or a
+    callback consults the same quorum on a second proposal) and from 2-3 threads under the line-level
+    scheduler rv/sched.py (pb(0), sampled pb(1), random); every call is judged against the ballots cast for
+    ITS proposal. The thread cases are the last case numbers so that LINE instrumentation is switched on only
+    after the sequential part of a shard.
 """
 import itertools
 import sys
+import threading
 
 from rv import core
 from rv import c06_model as M
+from rv import sched
+from rv.locks import DetectingLock, WouldHang
 
 PID = "C06"
 LEVEL = "exploration"
@@ -24,15 +39,25 @@ TECHNIQUE = ("runtime monitoring: stub voter agents drive the real run_vote over
              "reference model of the stated criteria judges every QuorumResult; metamorphic partner ballots are run "
              "back to back; callback stubs and sys.monitoring reach counters observe the anchored functions")
 RULE = ("cases = complete sweep of small electorates (reduced voter grid) x 7 strategies x thresholds x min_voters and "
-        "EmergencyQuorum, then seeded random electorates of 1..7 voters over the full grid; every case runs the ballot "
+        "EmergencyQuorum (each followed by a membership change + re-vote on the live quorum), a sweep of 2-3 member "
+        "colonies whose members share names, then seeded random electorates of 1..7 voters over the full grid "
+        "(sessions on one live quorum: set_strategy round trips, add_agent/remove_agent, colonies built through add_agent "
+        "with shared names, re-entrant nested votes), then thread cases (2-3 overlapping run_vote calls on one quorum "
+        "under the line-level scheduler); every case runs the ballot "
         "and its metamorphic partners; non-trivial = the ballot has both permit and non-permit voters or a "
-        "zero-weight / low-confidence voter; distinct = (class, strategy, threshold, min_voters, sorted ballot)")
+        "zero-weight / low-confidence voter (thread cases: a switch happened while another call was inside run_vote); "
+        "distinct = (class, strategy, threshold, min_voters, sorted ballot, names) / schedule trace")
 ASSUMPTIONS = [
     "voters raise only Exception subclasses; verdict words are PERMIT/EXECUTE/BLOCK/DEFER/FAILURE or unknown upper-case words",
     "weights and confidences come from the grid {0,.5,1,3} x {0,.2,.3,.5,1, absent, non-numeric}; reliability only moves through update_all_reliability",
     "THRESHOLD: custom t<1 is a share of the colony (ceil(t*n), at least 1), t>=1 a count, default n//2+1; min_voters counts permit+block ballots (DEFER not judged)",
     "BAYESIAN is judged by 'needs a permit ballot', monotonicity, and unanimous-permit => PERMIT only for thresholds <= 0.5",
     "exact ties within 1e-9 of the threshold are not judged when the weights are not exactly representable",
+    "the electorate of a vote is the colony at the time of the call (after any add_agent/remove_agent); every colony member casts "
+    "one ballot even when members share a name; sizes stay within 1..7",
+    "overlapping run_vote calls on one quorum (re-entrant from a voter/callback, or from other threads at statement granularity) "
+    "are each judged against the ballots the voters cast for that call's proposal; weights/strategy are not changed while calls "
+    "overlap; a call that would self-deadlock on the quorum's own lock, or a scheduler-detected deadlock, is counted, not judged",
 ]
 
 STRATEGIES = ["majority", "supermajority", "unanimous", "weighted", "confidence", "bayesian", "threshold"]
@@ -65,17 +90,27 @@ def _configs(n):
 SWEEP_BALLOTS = {n: list(itertools.combinations_with_replacement(range(len(SWEEP_TOKENS)), n)) for n in (1, 2, 3, 4)}
 SWEEP_CONFIGS = {n: _configs(n) for n in (1, 2, 3, 4)}
 
+# colonies whose members share a name: (members created by the constructor, names added through add_agent)
+SHARED_ROSTERS = {2: [(1, ["Bacterium_0"]), (0, ["scout", "scout"])],
+                  3: [(2, ["Bacterium_0"]), (0, ["scout", "scout", "scout"]), (1, ["scout", "scout"])]}
+SHARED_CONFIGS = [("quorum", s_, None, 1) for s_ in STRATEGIES] + [("quorum", "threshold", 2, 1), ("emergency", "threshold", "default", 1)]
+
 
 def _sweep_sizes(max_n):
     return [(n, len(SWEEP_BALLOTS[n]) * len(SWEEP_CONFIGS[n])) for n in range(1, max_n + 1)]
 
 
+def _shared_sizes():
+    return [(n, len(SWEEP_BALLOTS[n]) * len(SHARED_CONFIGS) * len(SHARED_ROSTERS[n])) for n in (2, 3)]
+
+
 SWEEP_MAX_N = {"quick": 3, "thorough": 4}
 RANDOM_CASES = {"quick": 100000, "thorough": 1500000}
+THREAD_CASES = {"quick": 480, "thorough": 6000}
 FINGERPRINT_RANDOM = 300000      # random cases beyond this are counted, not fingerprinted (keeps evidence merge small)
 
 
-_SWEEP_LEN = {t: sum(sz for _, sz in _sweep_sizes(m)) for t, m in SWEEP_MAX_N.items()}
+_SWEEP_LEN = {t: sum(sz for _, sz in _sweep_sizes(m)) + sum(sz for _, sz in _shared_sizes()) for t, m in SWEEP_MAX_N.items()}
 
 
 def sweep_len(tier):
@@ -83,12 +118,20 @@ def sweep_len(tier):
 
 
 def decode_sweep(tier, k):
+    """-> (config, ballot, roster or None)"""
     for n, sz in _sweep_sizes(SWEEP_MAX_N[tier]):
         if k < sz:
             cfgs = SWEEP_CONFIGS[n]
             b, c = divmod(k, len(cfgs))
             ballot = [spec(*SWEEP_TOKENS[i]) for i in SWEEP_BALLOTS[n][b]]
-            return cfgs[c], ballot
+            return cfgs[c], ballot, None
+        k -= sz
+    for n, sz in _shared_sizes():
+        if k < sz:
+            b, rest = divmod(k, len(SHARED_CONFIGS) * len(SHARED_ROSTERS[n]))
+            c, r = divmod(rest, len(SHARED_ROSTERS[n]))
+            ballot = [spec(*SWEEP_TOKENS[i]) for i in SWEEP_BALLOTS[n][b]]
+            return SHARED_CONFIGS[c], ballot, SHARED_ROSTERS[n][r]
         k -= sz
     raise IndexError(k)
 
@@ -101,13 +144,19 @@ def plan(tier):
            "reliability_sessions": 300, "callback_checks": 40000,
            "meta:block_to_permit": 3000, "meta:weight_up": 3000, "meta:confidence_up": 1500,
            "reach:QuorumSensing.run_vote": 40000, "reach:QuorumSensing._protein_to_vote": 40000,
-           "reach:QuorumSensing._aggregate_votes": 40000, "reach:EmergencyQuorum.run_vote": 500}
+           "reach:QuorumSensing._aggregate_votes": 40000, "reach:EmergencyQuorum.run_vote": 500,
+           # situations beyond one ballot on a fresh quorum
+           "membership_votes": 5000, "membership_votes:count-strategy": 800, "membership_required_count_changed": 300,
+           "reach:QuorumSensing.add_agent": 5000, "reach:QuorumSensing.remove_agent": 2000,
+           "shared_name_ballots": 1500, "shared_name_ballots:mixed": 500,
+           "nested_votes:voter": 300, "nested_votes:callback": 300, "nested_results_judged": 1200,
+           "thread_schedules": 600, "thread_results_judged": 1200, "thread_schedules_overlapping": 300}
     for s in STRATEGIES:
         req["strategy:" + s] = 2000
     for f in ("_simple_majority", "_supermajority", "_unanimous", "_weighted_vote", "_confidence_vote",
               "_bayesian_vote", "_threshold_vote"):
         req["reach:QuorumSensing." + f] = 1500
-    return {"cases": sw + RANDOM_CASES[tier], "shards": 8 if tier == "quick" else 14,
+    return {"cases": sw + RANDOM_CASES[tier] + THREAD_CASES[tier], "shards": 8 if tier == "quick" else 14,
             "min_nontrivial": 5000, "timeout": 600 if tier == "quick" else 2400, "require": req,
             "exhaustive": False}
 
